@@ -33,6 +33,11 @@ CASES = {
         {MAIN: "PUSH1 0x04 CALLDATALOAD PUSH @r JUMPI PUSH0 PUSH4 0x00200000 RETURN r: PUSH0 PUSH4 0x00200000 REVERT"}, 1, False, {}, ["C01"]),
     "log-zero-size-huge-offset": (
         {MAIN: f"PUSH0 PUSH4 0x00200000 LOG0 PUSH1 0x07 PUSH0 MSTORE {RET}"}, 1, False, {}, ["C01"]),
+    # a symbolic address aliasing the Foundry test-contract address: excluded from the alias candidates AND from the
+    # emptiness branch of resolve_address_alias, so no path admits it
+    "alias-to-foundry-test-address": (
+        {MAIN: f"PUSH1 0x04 CALLDATALOAD EXTCODESIZE PUSH0 MSTORE {RET}",
+         0x7FA9385BE102AC3EAC297483DD6233D62B3E1496: "PUSH1 0x07 PUSH0 MSTORE PUSH1 0x20 PUSH0 RETURN"}, 1, False, {}, ["C02"]),
     # the 1024-item stack limit
     "stack-limit-1025-items": (
         {MAIN: " ".join(["PUSH0"] * 1025) + " STOP"}, 1, False, {}, ["C01"]),
